@@ -508,12 +508,20 @@ class AsyncWorld(World):
     def register_acceptor(self, name, srv):
         def acceptor(conn, srv=srv):
             conn.server_task = self.loop.create_task(
-                srv.eio.handle_request(ws_environ(conn)))
+                srv.eio.handle_request(ws_environ(
+                    conn, (conn.info or {}).get('env'))))
             conn.server_obj = srv
         self.net.register(name, acceptor)
 
-    def add_peer(self, server='s'):
-        p = APeer(self, len(self.peers), server)
+    def add_peer(self, server='s', transport='websocket'):
+        if transport == 'polling':
+            from .poll import APollPeer
+
+            class _P(APollPeer, APeer):
+                pass
+            p = _P(self, len(self.peers), server)
+        else:
+            p = APeer(self, len(self.peers), server)
         self.peers.append(p)
         return p
 
@@ -792,14 +800,22 @@ class ThreadWorld(World):
 
         def acceptor(conn, srv=srv):
             def serve():
-                srv.eio.handle_request(ws_environ(conn),
-                                       lambda status, headers: None)
+                srv.eio.handle_request(
+                    ws_environ(conn, (conn.info or {}).get('env')),
+                    lambda status, headers: None)
             conn.server_task = k.spawn(serve, name='conn%d' % conn.cid)
             conn.server_obj = srv
         self.net.register(name, acceptor)
 
-    def add_peer(self, server='s'):
-        p = TPeer(self, len(self.peers), server)
+    def add_peer(self, server='s', transport='websocket'):
+        if transport == 'polling':
+            from .poll import TPollPeer
+
+            class _P(TPollPeer, TPeer):
+                pass
+            p = _P(self, len(self.peers), server)
+        else:
+            p = TPeer(self, len(self.peers), server)
         self.peers.append(p)
         return p
 
